@@ -10,11 +10,27 @@
 From Gnmi Require Import Base.Prelude Client.ClientModel Client.ClientCheck
      Client.ClientProofs Client.ClientProofs2 Client.ClientProofs3 Client.ClientProofs4 Client.ClientProofs5.
 
-(** The acceptance check is sound: an accepted recording is a trace of the model. *)
+(** The acceptance check is sound: an accepted recording is a trace of the model
+    of the code as it is now ([step_now] = [step] + the DEFECT C18_1 transition;
+    the theorems below are about [step], i.e. about everything outside
+    known-finding class 1, and about all of a ReconnectClient's behaviour). *)
 Theorem C18_accepts_sound : forall rc l tr ss,
-  model_accepts rc l tr = inr ss -> exists s, run (step rc (sc_of l)) init tr s.
+  model_accepts rc l tr = inr ss -> exists s, run (step_now rc (sc_of l)) init tr s.
 Proof. exact model_accepts_sound. Qed.
 Print Assumptions C18_accepts_sound.
+
+Theorem C18_step_now_reconnect : forall sc s, step_now true sc s = step true sc s.
+Proof. exact step_now_rc. Qed.
+Print Assumptions C18_step_now_reconnect.
+
+(** Known finding 1 (DEFECT C18_1): on the code as it is now at_most_one_after_close
+    fails for a bare client when Close arrives while a second Subscribe call is
+    connecting (witness corpus/C18/kf1_close_during_second_connect.json). *)
+Theorem C18_at_most_one_after_close_refuted :
+  exists s, run (step_now false (sc_of kf1_l)) init kf1_tr s /\
+            k_after false kf1_tr = Some 19 /\ known_class false kf1_l kf1_tr = 1%N.
+Proof. exact at_most_one_after_close_refuted. Qed.
+Print Assumptions C18_at_most_one_after_close_refuted.
 
 (** Close, once invoked on a ReconnectClient, sets [p.closed] in its next step,
     whatever the other threads do (the step is never blocked). *)
